@@ -105,6 +105,10 @@ fn items_arg(items: &[(u32, u16, &'static str)]) -> String {
 }
 
 fn run_binary(env_name: &str, extra_first: &[&str], items: &[(u32, u16, &'static str)], special: &str, all_kernels: bool) -> Vec<String> {
+    run_binary_with(env_name, extra_first, items, special, all_kernels, &[])
+}
+
+fn run_binary_with(env_name: &str, extra_first: &[&str], items: &[(u32, u16, &'static str)], special: &str, all_kernels: bool, more: &[&str]) -> Vec<String> {
     let bin = std::env::var(env_name).unwrap_or_else(|_| machinery_failure(&format!("{} not set (run through ./check)", env_name)));
     let mut cmd = crate::common::child_command(&bin);
     cmd.args(extra_first);
@@ -112,6 +116,7 @@ fn run_binary(env_name: &str, extra_first: &[&str], items: &[(u32, u16, &'static
     if all_kernels {
         cmd.arg("--all-kernels");
     }
+    cmd.args(more);
     let out = cmd.output().unwrap_or_else(|e| machinery_failure(&format!("cannot run {}: {}", bin, e)));
     let so = String::from_utf8_lossy(&out.stdout).to_string();
     if !out.status.success() || !so.lines().any(|l| l.starts_with("DIGEST-DONE")) {
@@ -131,7 +136,13 @@ fn collect(ctx: &Ctx, items_light: &[(u32, u16, &'static str)], items_heavy: &[(
         let h2 = s.spawn(|| run_binary("RQ_BIN_CHECKED", &["C07", "--child"], items_heavy, special, ctx.thorough()));
         let h3 = s.spawn(|| run_binary("RQ_BIN_NOSTD", &[], items_light, special, false));
         let h4 = s.spawn(|| run_binary("RQ_BIN_NOSTD_CHECKED", &[], items_heavy, special, false));
-        for h in [h1, h2, h3, h4] {
+        // the same workload once more on ONE thread in reverse item order, and once more on one thread in ascending
+        // order: what the library was asked before (per thread or per process) must not matter
+        let rev: Vec<(u32, u16, &'static str)> = { let mut v = items_light.to_vec(); v.sort(); v.reverse(); v };
+        let asc: Vec<(u32, u16, &'static str)> = { let mut v = items_light.to_vec(); v.sort(); v };
+        let h5 = s.spawn(move || run_binary_with("RQ_BIN_RELEASE", &["C07", "--child"], &rev, special, false, &["--single-thread", "--tag-suffix", "+descending-on-one-thread"]));
+        let h6 = s.spawn(move || run_binary_with("RQ_BIN_RELEASE", &["C07", "--child"], &asc, special, false, &["--single-thread", "--tag-suffix", "+ascending-on-one-thread"]));
+        for h in [h1, h2, h3, h4, h5, h6] {
             lines.extend(h.join().unwrap());
         }
     });
@@ -175,8 +186,8 @@ pub fn replay(case: &Value) -> Result<(), String> {
     for c in &cfgs {
         let parts: Vec<&str> = c.split('/').collect();
         let (env_name, first): (&str, &[&str]) = match (parts[0], parts[1]) {
-            ("release", "std") => ("RQ_BIN_RELEASE", &["C07", "--child"]),
-            ("checked", "std") => ("RQ_BIN_CHECKED", &["C07", "--child"]),
+            ("release", x) if x.starts_with("std") => ("RQ_BIN_RELEASE", &["C07", "--child"]),
+            ("checked", x) if x.starts_with("std") => ("RQ_BIN_CHECKED", &["C07", "--child"]),
             ("release", _) => ("RQ_BIN_NOSTD", &[]),
             _ => ("RQ_BIN_NOSTD_CHECKED", &[]),
         };
@@ -186,7 +197,12 @@ pub fn replay(case: &Value) -> Result<(), String> {
         }
         done.push(key);
         let bin = std::env::var(env_name).map_err(|_| format!("{} not set", env_name))?;
-        let out = crate::common::child_command(&bin).args(first).arg("--items").arg(items_arg(&item)).arg("--special").arg(&special).arg("--only-kernels").arg(parts[2]).output().map_err(|e| e.to_string())?;
+        let mut cmd = crate::common::child_command(&bin);
+        cmd.args(first).arg("--items").arg(items_arg(&item)).arg("--special").arg(&special).arg("--only-kernels").arg(parts[2]);
+        if let Some(pos) = parts[1].find('+') {
+            cmd.arg("--single-thread").arg("--tag-suffix").arg(&parts[1][pos..]);
+        }
+        let out = cmd.output().map_err(|e| e.to_string())?;
         let so = String::from_utf8_lossy(&out.stdout).to_string();
         if !so.lines().any(|l| l.starts_with("DIGEST-DONE")) {
             return Err(format!("configuration {} crashed on {}", c, it));
@@ -282,7 +298,7 @@ pub fn run(ctx: &Ctx) -> i32 {
     }
     finish(ctx, &st, Finish {
         level: "exploration",
-        rule: format!("configuration lattice: builds {{release, debug-assertions+overflow-checks}} x {{std, no_std}} (four binaries) x kernel family forced through the dispatchers {{auto(AVX-512), avx512, avx2, ssse3, portable}} (std; no_std is portable by construction) x sparse threshold {{0, 250, infinity}} x plan mode {{new cold, new warm (global cache), explicit plan (hooked threshold and public generate), unplanned}}; workload: {} items (K ladder x T in {{1,7,64,65}} x data {{pos,lcg}}, plus EVERY K of a contiguous range at T=7 (release 1..=170 quick / 700 thorough; debug-assertions 1..=110 / 330); {} items in the cubic debug-assertions builds): digest (two independent 64-bit hashes) of all source + 16 near + 4 far repair packets, and for each of 5-7 erasure patterns (incl. one rank-deficient set and one set that forces the GF(2) fast path to fall back, both found with the reference rank oracle) the decode outcome and bytes under all three decoder thresholds. Oracle: for every item all configurations give the identical digest. distinct_nontrivial = items compared across >= 2 configurations.", light.len(), heavy.len()),
+        rule: format!("configuration lattice: builds {{release, debug-assertions+overflow-checks}} x {{std, no_std}} (four binaries) x kernel family forced through the dispatchers {{auto(AVX-512), avx512, avx2, ssse3, portable}} (std; no_std is portable by construction) x sparse threshold {{0, 250, infinity}} x plan mode {{new cold, new warm (global cache), explicit plan (hooked threshold and public generate), unplanned}}, plus the release/std workload on one thread in ascending and in descending item order (call history must not matter); workload: {} items (K ladder x T in {{1,7,64,65}} x data {{pos,lcg}}, plus EVERY K of a contiguous range at T=7 (release 1..=170 quick / 700 thorough; debug-assertions 1..=110 / 330); {} items in the cubic debug-assertions builds): digest (two independent 64-bit hashes) of all source + 16 near + 4 far repair packets, and for each of 5-7 erasure patterns (incl. one rank-deficient set and one set that forces the GF(2) fast path to fall back, both found with the reference rank oracle) the decode outcome and bytes under all three decoder thresholds. Oracle: for every item all configurations give the identical digest. distinct_nontrivial = items compared across >= 2 configurations.", light.len(), heavy.len()),
         exhaustive: false,
         assumptions: vec!["NEON/aarch64, 32-bit x86, big-endian targets and other compiler versions cannot be executed here".into(), "the debug-assertions builds run a reduced workload (cubic self-checks)".into()],
         extra: Map::new(),
